@@ -32,6 +32,8 @@ DSL = "src/y0/dsl.py"
 CAN = "src/y0/mutate/canonicalize_expr.py"
 SIG = "src/y0/algorithm/separation/sigma_separation.py"
 LAT = "src/y0/algorithm/simplify_latent.py"
+CTA = "src/y0/algorithm/counterfactual_transport/api.py"
+CTU = "src/y0/algorithm/counterfactual_transport/ancestor_utils.py"
 
 MUTATIONS = [
     # ---------------------------------------------------------------- graph.py (C14 and every consumer)
@@ -212,6 +214,23 @@ MUTATIONS = [
      "what": "_latent_dag only fills in the default tag when the argument is falsy-or-missing via `tag = tag or DEFAULT_TAG` AFTER labelling the observed nodes (an explicit tag=None labels them under the key None)",
      "old": "    if tag is None:\n        tag = DEFAULT_TAG\n    if prefix is None:\n        prefix = DEFULT_PREFIX\n\n    bi_edges_list = list(bi_edges)\n\n    rv = nx.DiGraph()\n    rv.add_nodes_from(nodes or ())\n    rv.add_nodes_from(itt.chain.from_iterable(bi_edges_list))\n    rv.add_edges_from(di_edges)\n    nx.set_node_attributes(rv, False, tag)",
      "new": "    if prefix is None:\n        prefix = DEFULT_PREFIX\n\n    bi_edges_list = list(bi_edges)\n\n    rv = nx.DiGraph()\n    rv.add_nodes_from(nodes or ())\n    rv.add_nodes_from(itt.chain.from_iterable(bi_edges_list))\n    rv.add_edges_from(di_edges)\n    nx.set_node_attributes(rv, False, tag)\n    if tag is None:\n        tag = DEFAULT_TAG"},
+    # ---------------------------------------------------------------- counterfactual transport helpers (C19)
+    {"id": "m19_minimize_event_copies_with_copy", "props": ["C19"], "file": CTA,
+     "what": "minimize_event copies the event with .copy() before the comprehension: an event given as a tuple has no .copy()",
+     "old": "    return [(minimize_counterfactual(variable, graph), value) for variable, value in event]",
+     "new": "    return [(minimize_counterfactual(variable, graph), value) for variable, value in event.copy()]"},
+    {"id": "m19_factors_set_difference", "props": ["C19"], "file": CTA,
+     "what": "get_counterfactual_factors removes nothing from the event with a set difference (`event - set()`): callers passing a list / tuple / dict view break",
+     "old": "    district_mappings: defaultdict[frozenset[Variable], set[Variable]] = defaultdict(set)\n    for variable in event:\n        district_mappings[graph.get_district(variable.get_base())].add(variable)\n\n    # TODO if there",
+     "new": "    district_mappings: defaultdict[frozenset[Variable], set[Variable]] = defaultdict(set)\n    for variable in event - set():\n        district_mappings[graph.get_district(variable.get_base())].add(variable)\n\n    # TODO if there"},
+    {"id": "m19_minimize_keyword_renamed", "props": ["C19"], "file": CTU,
+     "what": "minimize_counterfactual: parameter variable renamed (keyword callers break)",
+     "old": "def minimize_counterfactual(variable: Variable, graph: NxMixedGraph) -> Variable:",
+     "new": "def minimize_counterfactual(var: Variable, graph: NxMixedGraph) -> Variable:\n    variable = var"},
+    {"id": "m19_components_pops_roots", "props": ["C19"], "file": CTU,
+     "what": "get_ancestral_components drains the caller's root collection with .pop() (needs a mutable set: frozenset / tuple / dict-view callers break)",
+     "old": "        for v in root_variables\n    }\n    logger.debug(\"In _get_ancestral_components: ancestral_sets = \"",
+     "new": "        for v in [root_variables.pop() for _ in range(len(root_variables))]\n    }\n    logger.debug(\"In _get_ancestral_components: ancestral_sets = \""},
 ]
 
 
